@@ -472,7 +472,9 @@ pub fn main(args: &[String]) -> i32 {
     let ors = format!("[{}].len()", (0..130).map(|_| "*_0 == 1 || *_0 == 2".to_string()).collect::<Vec<_>>().join(", "));
     let ors_flat = (0..130).map(|_| "*_0 == 1 || *_0 == 2".to_string()).collect::<Vec<_>>().join(", ");
     work.push((vec!["_0 | 1".into(), "_0 | 2".into(), "_1".into(), ors_flat], false));
-    for big in [&ladder, &lets, &arms, &returns, &ors] {
+    let iflets = format!("{{ {} 7u32 }}", "if let 1 = _0 {} ".repeat(300));
+    let ranges = format!("match *_0 {{ {} _ => {{ 8u32 }} }}", (0..300).map(|i| format!("{}..={} => {{ 7u32 }} ", 2 * i, 2 * i + 1)).collect::<String>());
+    for big in [&ladder, &lets, &arms, &returns, &ors, &iflets, &ranges] {
         for (a, b) in [("_0 | 1", "_0 | 2"), ("a < b", "c > d"), ("|x| x + 1", "y"), ("S { a: 1 }", "ident")] {
             work.push((vec![a.into(), b.into(), big.clone()], false));
             work.push((vec![big.clone(), a.into(), b.into()], false));
